@@ -2,9 +2,11 @@
 (* (G) for C11: the rendered URL universe and random histories (index triples <<url, value, form>>) *)
 EXTENDS C11, Json, IOUtils, Randomization
 CONSTANTS HLen, HN, NU
-Big == {a \in Universe : InUniverse(a)}
+\* a slice in which every URL comes with all its trailing-slash / query / fragment variants, plus raw strings with empty inner segments
+Big == {a \in Universe : InUniverse(a) /\ a.sc = 1 /\ a.pt = 1 /\ a.ci = 1 /\ a.hd <= 1}
+Raw == {LD.scheme[1] \o LD.host[1] \o LD.path[i] \o LD.query[j] : i \in 1..Len(LD.path), j \in {1, 3}}
 Gen(d) == [univ |-> SetToSeq({[a |-> a, u |-> RenderA(a)] : a \in U}),
-           big |-> SetToSeq({RenderA(a) : a \in RandomSubset(NU, Big)}),
+           big |-> SetToSeq({RenderA(a) : a \in Big} \cup Raw),
            hist |-> SetToSeq(UNION {RandomSubset(HN, [1..n -> (1..NU) \X (1..3) \X (1..3)]) : n \in HLen})]
 GenInit == LInit /\ JsonSerialize(IOEnv.GEN_OUT, Gen(0))
 GenNext == FALSE /\ UNCHANGED lvars
